@@ -247,7 +247,9 @@ Record ycase := YC {
   y_stage : cid; y_n : N; y_cycles : N; y_done : N;
   y_reached : bool;                     (* in every cycle all workers came up *)
   y_live : list (N * N);                (* (gauge reading with the workers up, number of cycles) *)
-  y_after : list (N * N) }.             (* (gauge reading right after Stop() returned, number of cycles) *)
+  y_after : list (N * N);               (* (gauge reading right after Stop() returned, number of cycles) *)
+  y_plive : list (N * N);               (* the same two readings of the EXPORTED (Prometheus) gauge *)
+  y_pafter : list (N * N) }.
 
 (* correspondence: the transition system on n workers  Incr; Decr; wg.Done()  with the counter at n *)
 Definition ydiff_case (c : ycase) : bool :=
@@ -260,7 +262,9 @@ Definition ydiff_case (c : ycase) : bool :=
   negb (y_reached c) || negb (y_done c =? y_cycles c)
   || stop_returned s (c_mem cf1) || negb (stop_returned s (c_mem cf2)) || negb (finished cf2)
   || negb (forallb (fun rc => fst rc =? get (c_mem cf1) (LCnt s)) (y_live c))
-  || negb (forallb (fun rc => fst rc =? get (c_mem cf2) (LCnt s)) (y_after c)).
+  || negb (forallb (fun rc => fst rc =? get (c_mem cf2) (LCnt s)) (y_after c))
+  || negb (forallb (fun rc => fst rc =? get (c_mem cf1) (LCnt s)) (y_plive c))
+  || negb (forallb (fun rc => fst rc =? get (c_mem cf2) (LCnt s)) (y_pafter c)).
 Definition ydiffs (l : list ycase) := bad_idx ydiff_case l.
 
 (* 0: workers up => gauge = number of workers, in every cycle *)
@@ -269,7 +273,12 @@ Definition ymon_live (c : ycase) : bool := y_reached c && forallb (fun rc => fst
 Definition ymon_stop (c : ycase) : bool :=
   forallb (fun rc => fst rc =? 0) (y_after c)
   && (fold_right (fun rc a => snd rc + a) 0 (y_after c) =? y_cycles c).
-Definition ymons (l : list ycase) := mon_idx [ymon_live; ymon_stop] l.
+(* 2, 3: the same for the gauge as exported on /metrics (exported = internal = live workers) *)
+Definition ymon_plive (c : ycase) : bool := forallb (fun rc => fst rc =? y_n c) (y_plive c).
+Definition ymon_pstop (c : ycase) : bool :=
+  forallb (fun rc => fst rc =? 0) (y_pafter c)
+  && (fold_right (fun rc a => snd rc + a) 0 (y_pafter c) =? y_cycles c).
+Definition ymons (l : list ycase) := mon_idx [ymon_live; ymon_stop; ymon_plive; ymon_pstop] l.
 
 (* ================================================================ the counters as the archiver feeds them *)
 Record hcase := HC {
@@ -305,3 +314,23 @@ Definition hmon_retried (c : hcase) : bool :=
 (* 2: URLs crawled = items that left the archiver *)
 Definition hmon_urls (c : hcase) : bool := h_ok c && (h_urls c =? N.of_nat (length (h_items c))).
 Definition hmons (l : list hcase) := mon_idx [hmon_accepted; hmon_retried; hmon_urls] l.
+
+(* ================================================================ the seeds-finished total as the finisher feeds it *)
+Record fcase := FC {
+  f_n : N; f_k : N; f_buf : N; f_drained : N;
+  f_stop_ok : bool;                     (* finisher.Stop() returned *)
+  f_marked : N;                         (* seeds for which reactor.MarkAsFinished succeeded (state table shrunk) *)
+  f_counted : N;                        (* growth of the Seeds-finished total *)
+  f_tui_ok : bool }.                    (* GetMapTUI()["Finished seeds"] = getTotal() *)
+(* the finisher makes one SeedsFinishedIncr call per seed it marked as finished: there is no exit
+   between the two in the worker *)
+Definition fdiff_case (c : fcase) : bool :=
+  negb (f_stop_ok c)
+  || negb (f_counted c =? sigma_segs (LTotal RSeeds) [(ORateIncr RSeeds 1, f_marked c)])
+  || negb (f_marked c <=? f_k c) || negb (N.min (f_k c) (f_buf c) <=? f_marked c).
+Definition fdiffs (l : list fcase) := bad_idx fdiff_case l.
+(* 0: finished in the reactor = counted *)
+Definition fmon_exact (c : fcase) : bool := (f_counted c =? f_marked c) && f_tui_ok c.
+(* 1: Stop() returned *)
+Definition fmon_stop (c : fcase) : bool := f_stop_ok c.
+Definition fmons (l : list fcase) := mon_idx [fmon_exact; fmon_stop] l.
